@@ -9,7 +9,11 @@ package raft
 
 import (
 	"bufio"
+
+	"github.com/santhosh-tekuri/raft/log"
+
 	"encoding/json"
+	"errors"
 	"fmt"
 	"io"
 	"os"
@@ -558,6 +562,16 @@ func (wk *simWorker) call(req *expandReq) (*expandResp, error) {
 	return &resp, nil
 }
 
+var errClosedRead = errors.New("read through an unmapped log segment (SIGSEGV in production)")
+
+func (wk *simWorker) stopCode() int {
+	wk.stop()
+	if wk.cmd.ProcessState != nil {
+		return wk.cmd.ProcessState.ExitCode()
+	}
+	return -1
+}
+
 func (wk *simWorker) stop() {
 	_ = wk.in.Close()
 	done := make(chan struct{})
@@ -619,8 +633,13 @@ func explore(sc *simScenario, budget time.Duration, maxStates int) *exploreResul
 				served++
 				resp, err := wk.call(&expandReq{Hist: j.node.history(), Hash: j.node.hash, Dev: j.node.dev})
 				if err != nil {
-					wk.stop()
+					code := wk.stopCode()
 					wk = nil
+					if code == log.VerifClosedReadExit {
+						err = fmt.Errorf("%w (exit %d)", errClosedRead, code)
+					} else {
+						err = fmt.Errorf("%v (exit status %d)", err, code)
+					}
 				}
 				results <- result{node: j.node, resp: resp, err: err}
 			}
@@ -662,7 +681,11 @@ func explore(sc *simScenario, budget time.Duration, maxStates int) *exploreResul
 					res.WorkerDeaths++
 					hist := r.node.history()
 					res.Errors = append(res.Errors, fmt.Sprintf("worker died expanding %v: %v", hist, r.err))
-					addFinding(simViolation{Oracle: "alive", Key: "worker-died", Desc: fmt.Sprintf("worker process died (fatal error / crash) while expanding this state: %v", r.err)}, hist)
+					if errors.Is(r.err, errClosedRead) {
+						addFinding(simViolation{Oracle: "view", Key: "read-through-unmapped-segment", Desc: "a successor of this state reads log data through a segment that was already unmapped by compaction/reset: " + r.err.Error()}, hist)
+					} else {
+						addFinding(simViolation{Oracle: "alive", Key: "worker-died", Desc: fmt.Sprintf("worker process died (fatal error / crash) while expanding this state: %v", r.err)}, hist)
+					}
 					continue
 				}
 				resp := r.resp
